@@ -432,6 +432,74 @@ func c02(r *engine.Report, p *engine.Program) {
 		r.Check("R4-immutable-address", "MessageData."+fname+": writers", token.NoPos, ok && len(writers) == 2,
 			"written only in the decoder and in SendMessageWithHopsToLive, on a freshly built packet (origin = s.nodeID)", fmt.Sprintf("written in %v: a packet's addressing/payload can change in transit, or the origin is not the local node ID", writers))
 	}
+	// origination wiring: SendMessageWithHopsToLive(fromService, toNode, toService, data, _) builds
+	// {FromService: fromService, ToNode: toNode (or own ID for the localhost alias), ToService: toService, Data: data};
+	// WriteTo calls it with (pc.localService, addr.node, addr.service, p)
+	{
+		wantParam := map[string]int{"FromService": 1, "ToNode": 2, "ToService": 3, "Data": 4} // index into snd.Params (0 = receiver)
+		got := map[string]string{}
+		okW := len(snd.Params) >= 5
+		for fname, pi := range wantParam {
+			if !okW {
+				break
+			}
+			f := p.Field("netceptor", "MessageData", fname)
+			n := 0
+			for _, a := range engine.FieldAccessesIn(snd, f) {
+				st, isS := a.Instr.(*ssa.Store)
+				if !isS || a.Kind != engine.AccStore {
+					continue
+				}
+				n++
+				v := engine.Unwrap(st.Val)
+				good := isParamValue(v, snd.Params[pi])
+				if ph, isPhi := v.(*ssa.Phi); isPhi && fname == "ToNode" {
+					// localhost alias: phi(param, s.nodeID)
+					good = true
+					for _, e := range ph.Edges {
+						ff, _ := engine.FieldOfLoad(e)
+						if !isParamValue(e, snd.Params[pi]) && ff != nodeID {
+							good = false
+						}
+					}
+				}
+				if good {
+					got[fname] = snd.Params[pi].Name()
+				} else {
+					got[fname] = "?"
+				}
+			}
+			if n != 1 || got[fname] == "?" {
+				okW = false
+			}
+		}
+		r.Check("R4-immutable-address", "SendMessageWithHopsToLive: each address/payload field is filled from its own parameter", snd.Pos(), okW,
+			fmt.Sprintf("field ← parameter wiring %v (ToNode may be replaced by the own ID for the localhost alias)", got), fmt.Sprintf("field ← parameter wiring is %v: a packet is originated with swapped or foreign address fields", got))
+		wt := p.Func("(*netceptor.PacketConn).WriteTo")
+		okWT := false
+		if wt != nil && len(wt.Params) >= 3 {
+			for _, ci := range engine.CallsIn(wt) {
+				c := ci.Common()
+				if !(c.IsInvoke() && c.Method.Name() == "SendMessageWithHopsToLive") && !engine.IsCallTo(c, "(*netceptor.Netceptor).SendMessageWithHopsToLive") {
+					continue
+				}
+				a := c.Args
+				if !c.IsInvoke() {
+					a = a[1:]
+				}
+				if len(a) < 4 {
+					continue
+				}
+				f0, b0 := engine.FieldOfLoad(a[0])
+				f1, _ := engine.FieldOfLoad(a[1])
+				f2, _ := engine.FieldOfLoad(a[2])
+				okWT = f0 != nil && f0.Name() == "localService" && isParamValue(b0, wt.Params[0]) &&
+					f1 != nil && f1.Name() == "node" && f2 != nil && f2.Name() == "service" && isParamValue(a[3], wt.Params[1])
+			}
+		}
+		r.Check("R4-immutable-address", "PacketConn.WriteTo: sends (own service, addr.node, addr.service, p)", token.NoPos, okWT,
+			"the datagram is originated from the socket's own service to the node and service of the given address, with the caller's bytes", "WriteTo no longer passes (pc.localService, addr.node, addr.service, p) in that order")
+	}
 	// ReadFrom: source address = m.FromNode / m.FromService, count = copy(p, m.Data)
 	{
 		okA := true
@@ -583,6 +651,7 @@ func framerRules(r *engine.Report, p *engine.Program) {
 		"received bytes are appended (copied) to the framer's own buffer; the backends reuse their read buffer for the next read", fmt.Sprintf("RecvData keeps a reference to the caller's read buffer (%v): the next read of the backend overwrites a partially received frame", retained))
 	streamReaderKeepsBytes(r, p)
 	sizeIndependentPath(r, p)
+	nameHashRules(r, p)
 }
 
 // sizeIndependentPath: a payload of any length up to the advertised MTU takes the same path. On
